@@ -38,6 +38,11 @@ def run(chk):
         raise MachineryError(f"Couplings design violated {r.violated}: {r.counterexample()[:2500]}")
     for sw in ("noref", "nohit", "nostore"):
         chk.tlc("CouplingsMC", f"CouplingsMC_{sw}.cfg", expect_violation=True, label=f"vacuity guard: copy switch {sw}")
+    rw = chk.tlc("CouplingsMC", "CouplingsMC_wall.cfg", label="heap model, reference exactly on a matching scale, decoupling factor one (LO/NLO)")
+    if rw.violated:
+        raise MachineryError(f"Couplings design violated {rw.violated}: {rw.counterexample()[:2500]}")
+    chk.tlc("CouplingsMC", "CouplingsMC_wall_nonf.cfg", expect_violation="C17_HistoryFree",
+            label="vacuity guard: cache key without the flavour number (collides when the reference sits on a matching scale)")
     ntok, nfree = (3000, 1500) if chk.thorough() else (300, 150)
     jobs = [(chk.rng.randrange(2**31), "tok", chk.rng.randrange(3, 14)) for _ in range(ntok)]
     jobs += [(chk.rng.randrange(2**31), "free", chk.rng.randrange(5, 30)) for _ in range(nfree)]
